@@ -1039,6 +1039,12 @@ def weave(unit_path):
                 if st2 != stripped:
                     info['rules'].add('D21')
                 stripped = st2
+                # D13 (top-level form): a const initialised by an exec call (`Duration::from_millis(250)`) becomes an `exec const` whose
+                # value is pinned by an ensures clause with the same expression (read in spec mode through `when_used_as_spec`)
+                mc = re.match(r'^(\s*)(pub(?:\([a-z]+\))?\s+)?const\s+(\w+)\s*:\s*([^=]+?)\s*=\s*(Duration::from_\w+\([^;]*\))\s*;\s*$', stripped, re.S)
+                if mc:
+                    stripped = '%s%sexec const %s: %s\n    ensures %s == %s,\n{ %s }' % (mc.group(1), mc.group(2) or '', mc.group(3), mc.group(4), mc.group(3), mc.group(5), mc.group(5))
+                    info['rules'].add('D13')
             # keep line structure: stripped text keeps the newlines of non-removed parts only; map by first line
             out.emit(stripped + '\n', 'repo', rel, first_line)
             info['items'].append(dict(kind=kind, file=rel, name=name, line=first_line))
